@@ -710,6 +710,16 @@ class Emitter:
     def cast(self, op, x, ty, fn):
         xs = self.val(x, fn); ct = self.ct(ty)
         if op in ('bitcast', 'addrspacecast'):
+            if ty.k == 'ptr' and x.ty is not None and x.ty.k == 'ptr' and ty.to.k in ('named', 'struct', 'int', 'ptr', 'double', 'float', 'arr'):
+                # pointer to an object -> pointer to its first member (base-class / first-field upcast): member address
+                # instead of a cast, so that the verifier keeps the access field-sensitive
+                t = x.ty.to; path = ''
+                for _ in range(6):
+                    rt = self.resolve(t) if t.k == 'named' else t
+                    if rt.k != 'struct' or not rt.els or getattr(rt, 'packed', False) and False: break
+                    path += '.f0'; t = rt.els[0]
+                    if tstr(t) == tstr(ty.to):
+                        return '(&(%s)->%s)' % (xs, path[1:])
             if ty.k == 'ptr': return '((%s)%s)' % (ct, xs)
             # scalar bit reinterpretation
             return '(*(%s*)&(%s){%s})' % (ct, self.ct(x.ty), xs)
@@ -1144,7 +1154,26 @@ def emit_call(E, f, ins, L, declare):
                 ct = E.ct(td)
                 L.append('  if (%s == sizeof(%s)) *(%s*)%s = *(%s*)%s; else ir_memcpy((uint8_t*)%s, (uint8_t*)%s, %s);' % (A[2], ct, ct, A[0], ct, A[1], A[0], A[1], A[2])); return
             L.append('  ir_memcpy((uint8_t*)%s, (uint8_t*)%s, %s);' % (A[0], A[1], A[2])); return
-        if name.startswith('llvm.memmove.'): L.append('  ir_memmove((uint8_t*)%s, (uint8_t*)%s, %s);' % (A[0], A[1], A[2])); return
+        if name.startswith('llvm.memmove.'):
+            # both pointers were bit-cast from pointers to the same scalar/pointer element type (std::copy of trivially
+            # copyable elements): element-wise loops in that type instead of byte loops (same effect when the length is a
+            # multiple of the element size, which is asserted); keeps words and pointers whole for the solver
+            d, s_, n = args[0], args[1], args[2]
+            def origin(v):
+                if v.k == 'local': return f.cast_origin.get(v.name)
+                if v.k == 'ccast' and v.op == 'bitcast' and v.x.ty is not None and v.x.ty.k == 'ptr': return v.x.ty.to
+                return None
+            td, ts = origin(d), origin(s_)
+            if td is not None and ts is not None and tstr(td) == tstr(ts) and td.k in ('int', 'ptr', 'double', 'float', 'named', 'struct') and not (td.k == 'int' and td.bits == 8):
+                ct = E.ct(td)
+                f.mm_count = getattr(f, 'mm_count', 0) + 1
+                k = f.mm_count
+                L.append('  { %s* d%d_ = (%s*)%s; %s* s%d_ = (%s*)%s; uint64_t n%d_ = %s / sizeof(%s); uint64_t i%d_;' % (ct, k, ct, A[0], ct, k, ct, A[1], k, A[2], ct, k))
+                L.append('    __CPROVER_assert(%s %% sizeof(%s) == 0, "memmove length is a multiple of the element size");' % (A[2], ct))
+                L.append('    if ((uintptr_t)d%d_ <= (uintptr_t)s%d_) { for (i%d_ = 0; i%d_ < n%d_; i%d_++) d%d_[i%d_] = s%d_[i%d_]; }' % (k, k, k, k, k, k, k, k, k, k))
+                L.append('    else { for (i%d_ = n%d_; i%d_ > 0; i%d_--) d%d_[i%d_ - 1] = s%d_[i%d_ - 1]; } }' % (k, k, k, k, k, k, k, k))
+                return
+            L.append('  ir_memmove((uint8_t*)%s, (uint8_t*)%s, %s);' % (A[0], A[1], A[2])); return
         if name.startswith('llvm.memset.'): L.append('  ir_memset((uint8_t*)%s, %s, %s);' % (A[0], A[1], A[2])); return
         if name == 'llvm.trap': L.append('  __CPROVER_assert(0, "llvm.trap"); __CPROVER_assume(0);'); return
         if name.startswith('llvm.expect.'): out(A[0]); return
